@@ -1711,7 +1711,10 @@ impl Ty {
                     sub_ty: expected_sub_ty,
                 },
             ) => {
+                // `can_fit_into` is checked so that this stays a subset of `can_fit_into`
+                // (functionally equivalent nominal types, e.g. two identical structs, don't fit)
                 found_size == expected_size
+                    && found_sub_ty.can_fit_into(expected_sub_ty)
                     && (found_sub_ty.is_weak_replaceable_by(expected_sub_ty)
                         || found_sub_ty.is_functionally_equivalent_to(expected_sub_ty, false))
             }
@@ -1724,8 +1727,9 @@ impl Ty {
                     sub_ty: expected_sub_ty,
                 },
             ) => {
-                found_sub_ty.is_weak_replaceable_by(expected_sub_ty)
-                    || found_sub_ty.is_functionally_equivalent_to(expected_sub_ty, false)
+                found_sub_ty.can_fit_into(expected_sub_ty)
+                    && (found_sub_ty.is_weak_replaceable_by(expected_sub_ty)
+                        || found_sub_ty.is_functionally_equivalent_to(expected_sub_ty, false))
             }
             (
                 Ty::Slice {
